@@ -89,6 +89,7 @@ package dsl
 //@   property C10
 //@   requires value != nil
 //@   ensures result1 == nil ==> result0 != nil
+//@   invariant 1: len(vals) * 2 == i && (forall k in 0..len(vals) :: vals[k] != nil)
 //@ func parseError
 //@   requires node != nil
 //@ func createNodeMeta
